@@ -36,25 +36,37 @@ PB_Q = [[(B, "ADD", 3)], [(B, "ADD", 17)], [(B, "ADD", 16), (B, "ADD", 3)]]
 # KF-C13-nodefer: on a buffer with deferred callbacks n_add_for_cb/n_del_for_cb are not cleared after running the NODEFER
 # callbacks, so a NODEFER callback sees every change again with each later change until the deferred run ("reported twice").
 # KF_EXCLUDE_NODEFER drops only the sum check for the NODEFER callback (the per-invocation equation stays).
+CORE = ["ADD", "PREPEND", "DRAIN", "REMOVE", "RESERVE_COMMIT", "REF"]
 def gen(tier):
+    """quick: budget <= 5 min wall on 16 idle cores (measured ~38 s per obligation); thorough: superset"""
     obs = []
-    pres = PRE_T if tier == "thorough" else PRE_Q
-    for cb in (1, 2, 3):
-        xd = ["KF_EXCLUDE_NODEFER"] if cb == 2 else []
-        for pre in pres + (TOGGLE if cb == 1 else []):
-            for fk in MUT_1:
-                if cb == 3 and fk not in ("ADD", "DRAIN", "PREPEND", "REMOVE"): continue
-                if tier == "quick" and fk in ("RESERVE_COMMIT2", "ADD_IOVEC", "EXPAND") and pre not in ([], [(A, "ADD", 16)]): continue
-                obs.append(C12.evb_split(13, pre, (A, fk), cb=cb, name_prefix="cb%d_" % cb, extra_defs=xd, **C12.timeouts(fk, tier)))
-        for x in ([[], [(A, "ADD", 3)]] if tier == "quick" else [[], [(A, "ADD", 3)], [(A, "ADD", 16)]]):
-            for y in PB_Q:
-                for fk in MUT_2:
-                    if cb == 3: continue
-                    obs.append(C12.evb_split(13, x + y, (A, fk), cb=cb, name_prefix="cb%d_" % cb, extra_defs=xd, **C12.timeouts(fk, tier)))
+    def one(pre, fin, cb, npfx=None, **kw):
+        xd = (["KF_EXCLUDE_NODEFER"] if cb == 2 else []) + list(kw.pop("extra_defs", []))
+        obs.append(C12.evb_split(13, pre, fin, cb=cb, name_prefix=npfx or "cb%d_" % cb, extra_defs=xd, **dict(C12.timeouts(fin[1], tier), **kw)))
+    if tier == "quick":
+        for pre in [[], [(A, "ADD", 3)], [(A, "ADD", 15), (A, "DRAIN", 4)]] + TOGGLE:
+            for fk in CORE: one(pre, (A, fk), 1)
+        for fk in ["PULLUP", "EXPAND", "RESERVE_COMMIT2", "ADD_IOVEC"]: one([(A, "ADD", 16)], (A, fk), 1)
+        for pre in [[], [(A, "ADD", 3)], [(A, "ADD", 16)]]:
+            for fk in CORE: one(pre, (A, fk), 2)
+        for fk in ["ADD", "DRAIN", "PREPEND", "REMOVE"]: one([(A, "ADD", 3)], (A, fk), 3)
+        for cb in (1, 2):
+            for y in PB_Q[:2]:
+                for fk in MUT_2: one([(A, "ADD", 3)] + y, (A, fk), cb)
+    else:
+        for cb in (1, 2, 3):
+            for pre in PRE_T + (TOGGLE if cb == 1 else []):
+                for fk in MUT_1:
+                    if cb == 3 and fk not in ("ADD", "DRAIN", "PREPEND", "REMOVE"): continue
+                    one(pre, (A, fk), cb)
+            if cb == 3: continue
+            for x in [[], [(A, "ADD", 3)], [(A, "ADD", 16)]]:
+                for y in PB_Q:
+                    for fk in MUT_2: one(x + y, (A, fk), cb)
     # several changes between two runs of the deferred callback: the deferred callback must aggregate them
     for pre in [[(A, "ADD", 3), (A, "ADD", 2)], [(A, "ADD", 16), (A, "DRAIN", 5)], [(A, "ADD", 3), (A, "PREPEND", 2), (A, "DRAIN", 1)]]:
         for fk in ["ADD", "DRAIN", "PREPEND"]:
-            obs.append(C12.evb_split(13, pre, (A, fk), cb=2, name_prefix="cb2agg_", extra_defs=["KF_EXCLUDE_NODEFER"], **C12.timeouts(fk, tier)))
+            one(pre, (A, fk), 2, npfx="cb2agg_")
     # the recorded finding: must still fail exactly as predicted
     obs.append(C12.evb_split(13, [(A, "ADD", 3), (A, "ADD", 2)], (A, "ADD"), cb=2, name_prefix="kf_nodefer_", extra_defs=["KF_ONLY_NODEFER"],
                              expect_fail=["C13: NODEFER callback: sum of"], known_finding="KF-C13-nodefer", **C12.timeouts("ADD", tier)))
